@@ -44,6 +44,15 @@ def build_program(prog, rng):
                                         max_pts=[1.0], nb=2 if with_border else None, bb=1 if with_border else None,
                                         nt=prog["nt"], bt=prog["bt"], tmin=0.0, tmax=1.0, cartesian=True))
         bsize, D = prog["b"] * prog["bt"], 2
+    elif kind == "spinn1":
+        # separable network, 1-D Burgers, paired (non-cartesian) batches as recommended for SPINNs
+        data = gens.make_generator(dict(kind="nonstatio", key=key, n=prog["n"], b=prog["b"], dim=1, min_pts=[-1.0],
+                                        max_pts=[1.0], nb=2, bb=1, nt=prog["n"], bt=prog["b"], tmin=0.0, tmax=1.0,
+                                        cartesian=False))
+        return _spinn_program(prog, rng, data)
+    elif kind == "hyper":
+        data = gens.make_generator(dict(kind="ode", key=key, nt=prog["n"], bt=prog["b"], tmin=0.0, tmax=1.0))
+        return _hyper_program(prog, rng, data)
     else:
         raise KeyError(kind)
     if kind == "sys_ode":
@@ -83,6 +92,45 @@ def build_program(prog, rng):
     return dict(loss=loss, params=params, data=data, param_data=param_data, obs_data=obs_data, problem=problem)
 
 
+def _spinn_program(prog, rng, data):
+    import jax.numpy as jnp
+    import jinns
+    from jinns.parameters import Params
+
+    from . import fields, nets
+
+    sn = nets.SNet(fields.SepField(prog["seed"], 2, 2, 1), "nonstatio_PDE")
+    params = Params(nn_params=sn.nn_params(), eq_params={"nu": jnp.asarray(0.3)})
+    dk = jinns.parameters.DerivativeKeysPDENonStatio.from_str(params, dyn_loss="both")
+    loss = jinns.loss.LossPDENonStatio(u=sn.spinn(), dynamic_loss=jinns.loss.BurgerEquation(Tmax=1.0),
+                                       initial_condition_fun=lambda x: jnp.sin(x),
+                                       omega_boundary_fun=lambda t, dx: 0.0, omega_boundary_condition="dirichlet",
+                                       derivative_keys=dk, params=params)
+    return dict(loss=loss, params=params, data=data, param_data=None, obs_data=None, problem=None)
+
+
+def _hyper_program(prog, rng, data):
+    import equinox as eqx
+    import jax
+    import jax.numpy as jnp
+    import jinns
+    from jinns.parameters import Params
+
+    from . import eqs
+
+    lst = ((eqx.nn.Linear, 1, 4), (jax.nn.tanh,), (eqx.nn.Linear, 4, 1))
+    u = jinns.utils.create_HYPERPINN(jax.random.PRNGKey(prog["seed"] % 997), lst, "ODE", ["kappa"], 1, 0,
+                                     eqx_list_hyper=((eqx.nn.Linear, 1, 3), (jax.nn.tanh,), (eqx.nn.Linear, 3, 1)))
+    params = Params(nn_params=u.init_params(), eq_params={"theta": jnp.asarray([0.8]), "kappa": jnp.asarray([-0.5])})
+    spec = eqs.ResidSpec(prog["seed"], 1, 1, 1)
+    dk = jinns.parameters.DerivativeKeysODE.from_str(params, dyn_loss="both", initial_condition="both")
+    loss = jinns.loss.LossODE(u=u, dynamic_loss=spec.module("ode"), initial_condition=(0.0, jnp.asarray([0.2])),
+                              derivative_keys=dk, params=params)
+    pdata = jinns.data.DataGeneratorParameter(jax.random.PRNGKey(prog["seed"] % 991), 2 * prog["b"] + 1, prog["b"],
+                                              param_ranges={"kappa": (-1.0, -0.2)})
+    return dict(loss=loss, params=params, data=data, param_data=pdata, obs_data=None, problem=None)
+
+
 def tracked_spec(params, what):
     """what in none / theta / nn_leaf  -> tracked_params tree (None where not tracked)"""
     import equinox as eqx
@@ -92,7 +140,8 @@ def tracked_spec(params, what):
         return None
     t = jax.tree_util.tree_map(lambda p: None, params)
     if what == "theta":
-        return eqx.tree_at(lambda p: p.eq_params["theta"], t, True, is_leaf=lambda x: x is None)
+        k0 = "theta" if "theta" in params.eq_params else sorted(params.eq_params)[0]
+        return eqx.tree_at(lambda p: p.eq_params[k0], t, True, is_leaf=lambda x: x is None)
     if what == "nn_leaf":
         if isinstance(params.nn_params, dict):
             k = sorted(params.nn_params)[0]
